@@ -6,7 +6,7 @@ from . import terms as T
 from .values import (
     V, VConst, VNum, VTens, VList, VTuple, VDict, VObj, VFunc, VClass, VExt, VModule, VBound,
     VSuper, VUnknown, VSlice, VRange, VIter, Instance, Unsupported, ShapeMismatch, num_term,
-    const_of, UNK, broadcast, dim_mul, dim_cat,
+    const_of, UNK, broadcast, dim_mul, dim_cat, dims_equal,
 )
 from .ops_tensor import tensor_method, map_stack, reduce_shape, _axes_arg, _axis, ELEMENTWISE
 
@@ -74,7 +74,7 @@ def matmul_shape(sa, sb, site):
     def chk(x, y):
         if x == UNK or y == UNK:
             return
-        if x != y:
+        if not dims_equal(x, y):
             raise ShapeMismatch("matmul inner dimensions differ: %s vs %s" % (x, y), site)
 
     if len(sa) == 1 and len(sb) == 1:
@@ -153,7 +153,7 @@ def einsum_shape(spec, shapes, site):
         for l, d in zip(letters, sh):
             if l is None:
                 continue
-            if l in dims and dims[l] != d and UNK not in (dims[l], d) and 1 not in (dims[l], d):
+            if l in dims and dims_equal(dims[l], d) is False and 1 not in (dims[l], d):
                 raise ShapeMismatch("einsum index '%s' has sizes %s and %s" % (l, dims[l], d), site)
             if l not in dims or dims[l] in (1, UNK):
                 dims[l] = d
@@ -447,6 +447,9 @@ def call_opaque(it, f, args, kwargs, node):
             touched.append(a.obj)
         elif isinstance(a, VObj):
             touched.append(a.inst)
+    if not hasattr(it, "opaque_log"):
+        it.opaque_log = []
+    it.opaque_log.append((tag, list(args), dict(kwargs), it.site(node)))
     e = it.effect("ext-call", "call:" + tag, node, "opaque call %s" % tag)
     e.detail = ("opaque", tag, touched)
     u = VUnknown("ret(%s)" % tag, "unknown")
@@ -547,7 +550,7 @@ def call_torch(it, f, args, kwargs, node):
                         raise ShapeMismatch("cat axis out of range")
                     for s in shs[1:]:
                         for i, (d1, d2) in enumerate(zip(shs[0], s)):
-                            if i != p and d1 != d2 and UNK not in (d1, d2):
+                            if i != p and dims_equal(d1, d2) is False:
                                 raise ShapeMismatch("cat operands differ off-axis: %s vs %s" % (shs[0], s))
                     shape = shs[0][:p] + (dim_cat([s[p] for s in shs]),) + shs[0][p + 1:]
                 else:
@@ -649,7 +652,18 @@ def call_torch(it, f, args, kwargs, node):
         return VConst(isinstance(args[0], VTens) and args[0].kind == "tensor") if not isinstance(args[0], VUnknown) else VUnknown("is_tensor", "bool")
     if f in ("double", "float64", "float32", "float", "long", "int64", "bool", "uint8", "int", "int32", "cdouble", "cfloat", "half"):
         return VExt("torch." + f)
-    if f.startswith("optim.") or f.startswith("nn."):
+    if f.startswith("optim.lr_scheduler."):
+        inst = Instance(None)
+        inst.ext = "torch.optim.lr_scheduler"
+        inst.attrs["optimizer"] = args[0] if args else None
+        return VObj(inst)
+    if f.startswith("optim."):
+        inst = Instance(None)
+        inst.ext = "torch.optim.Optimizer"
+        inst.attrs["params"] = args[0] if args else kwargs.get("params")
+        inst.attrs["ctor"] = (f, args, kwargs)
+        return VObj(inst)
+    if f.startswith("nn."):
         return call_opaque(it, VExt("torch." + f), args, kwargs, node)
     if f in ("set_default_dtype", "set_num_threads", "no_grad", "set_grad_enabled"):
         return VUnknown(f, "unknown")
@@ -1329,7 +1343,12 @@ def module_api():
     return MODULE_API
 
 
+OBJECT_ATTRS = ("__init__", "__class__", "__dict__", "__setattr__", "__repr__", "__str__", "__eq__", "__hash__", "__ne__", "__doc__", "__module__")
+
+
 def ext_base_has(ext_bases, attr):
+    if attr in OBJECT_ATTRS:
+        return True
     for e in ext_bases:
         if e == "torch.nn.Module":
             if attr in module_api()[0]:
@@ -1345,12 +1364,12 @@ def ext_base_has(ext_bases, attr):
 
 
 def ext_base_attr(it, objv, ext_bases, attr, node):
-    for e in ext_bases:
+    for e in list(ext_bases) + ["object"]:
         if e == "torch.nn.Module":
             if attr in module_api()[0]:
                 return VBound(objv, "nn.Module." + attr)
         elif e in ("abc.ABC", "object"):
-            if attr in ("__init__", "__class__", "__dict__", "__setattr__", "__repr__", "__str__", "__eq__", "__hash__"):
+            if attr in OBJECT_ATTRS:
                 return VBound(objv, "object." + attr)
         elif e == "collections.abc.MutableSequence":
             if attr in ("append", "extend", "pop", "remove", "reverse", "index", "count", "clear", "__init__"):
@@ -1456,6 +1475,29 @@ def ext_method(it, objv, name, args, kwargs, node):
         return VConst(None)
     if ext == "torch.device":
         return VUnknown("device.%s" % name, "unknown")
+    if ext == "torch.optim.Optimizer":
+        ps = it.concrete_items(inst.attrs.get("params")) if inst.attrs.get("params") is not None else None
+        it.ext_calls.append(["optimizer." + name, list(args), dict(kwargs), it.site(node), None])
+        if name == "step":
+            if ps is None:
+                it.effect("params", "attr:<all parameters>", node, "optimizer.step")
+            else:
+                for q in ps:
+                    if isinstance(q, VTens):
+                        it.effect("params", q.obj, node, "optimizer.step")
+                        q.obj.term = T.app("sgd_step", q.obj.term, q.obj.grad.term if isinstance(q.obj.grad, VTens) and q.obj.grad.term is not None else T.sym("grad?")) if q.obj.term is not None else None
+            return VConst(None)
+        if name == "zero_grad":
+            for q in ps or []:
+                if isinstance(q, VTens):
+                    it.effect("grad", q.obj, node, "optimizer.zero_grad")
+                    q.obj.grad = None
+            return VConst(None)
+        return VUnknown("optimizer.%s" % name, "unknown")
+    if ext == "torch.optim.lr_scheduler":
+        it.ext_calls.append(["scheduler." + name, list(args), dict(kwargs), it.site(node), None])
+        it.effect("ext", "lr", node, "scheduler.%s" % name)
+        return VConst(None)
     if inst.cls is None:
         return call_opaque(it, VUnknown("%s.%s" % (ext, name), "unknown", inst.origin), [objv] + list(args), kwargs, node)
     # repo instance, method coming from an unknown external base
